@@ -86,6 +86,17 @@ def work(shard, rec):
             fg = tuple(rnd.choice([0, 1]) for _ in range(3))
             kind = ["rgba_tuple", "rgba_list", "rgba", "rgba_tuple"][(i // 11) % 4]
         text = SP.spell_translucent(fg, a, kind)
+        if i % 13 == 7:
+            # an RGBA tuple whose channels mix ints and floats (0.0 / 1.0 / 255.0 included): one int or one value above 1 makes it
+            # RGBA, and every channel then counts on the 0-255 scale, whatever the alpha - alpha exactly 1 included
+            fg = tuple(rnd.choice([0, 1, 255, rnd.randrange(256)]) for _ in range(3))
+            if max(fg) <= 1:
+                fg = (fg[0], 200, fg[2])
+            kind = "rgba_tuple"
+            a = rnd.choice(["1", "1.0", "0.999", "0.5", a])
+            k0 = max(range(3), key=lambda j: fg[j])
+            text = tuple((fg[j] if j == k0 else float(fg[j])) for j in range(3)) + ((1 if a == "1" else float(a)),)
+            rec.count("mixed_int_float_rgba_tuples")
         if i % 6 == 5:
             # other spellings the library accepts for translucent text: rgb() carrying an alpha (CSS Color 4 alias forms) and
             # the informal list; a small fixed pool so that the same string meets many backgrounds in one process
